@@ -8,7 +8,7 @@ use serde_json::{json, Value as J};
 pub const HOOKS: [&str; 11] = ["definition", "operation", "fragment", "selectionSet", "field", "spread", "inline", "directive", "argument", "value", "varDef"];
 
 #[derive(Clone, Default)]
-pub struct Probe { pub modulus: usize, pub residue: usize, pub marker: String }
+pub struct Probe { pub modulus: usize, pub residue: usize, pub marker: String, pub nullify: bool }
 impl Probe { fn hit(&self, key: usize) -> bool { self.modulus != 0 && key % self.modulus == self.residue } }
 
 #[derive(Default)]
@@ -111,7 +111,7 @@ impl OperationTransformer<'static, S> for ProbeT {
         let p = match &self.hooks[9] { Some(p) => p.clone(), None => return self.default_transform_value(x) };
         let key = value_key(x); self.log.push((9, key));
         let d = self.default_transform_value(x);
-        if p.hit(key) { TransformedValue::Replace(Value::Enum(p.marker.clone())) } else { d }
+        if p.hit(key) { TransformedValue::Replace(if p.nullify { Value::Null } else { Value::Enum(p.marker.clone()) }) } else { d }
     }
     fn transform_variable_definition(&mut self, x: &VariableDefinition<'static, S>) -> TransformedValue<VariableDefinition<'static, S>> {
         let p = match &self.hooks[10] { Some(p) => p.clone(), None => return self.default_transform_variable_definition(x) };
@@ -132,7 +132,7 @@ pub fn transform_case(text: &str, hooks: &[Option<Probe>; 11], out: &mut Out) {
         Err(_) => (true, doc.clone(), "panic"),
     };
     // spans are not in the model: check directly that every selection set that is structurally present in both keeps its span
-    let hj: serde_json::Map<String, J> = HOOKS.iter().zip(hooks.iter()).filter_map(|(n, p)| p.as_ref().map(|p| (n.to_string(), json!([p.modulus, p.residue, id(&p.marker)])))).collect();
+    let hj: serde_json::Map<String, J> = HOOKS.iter().zip(hooks.iter()).filter_map(|(n, p)| p.as_ref().map(|p| (n.to_string(), if p.nullify { json!([p.modulus, p.residue, id(&p.marker), 1]) } else { json!([p.modulus, p.residue, id(&p.marker)]) }))).collect();
     let no_hooks = hooks.iter().all(|h| h.is_none());
     out.push(json!({"op": "transform", "src": text, "doc": enc::document(&doc), "hooks": hj,
         "impl": {"outcome": outcome, "keep": keep, "doc": enc::document(&res_doc),
@@ -146,7 +146,7 @@ pub fn random_hooks(rng: &mut Rng) -> [Option<Probe>; 11] {
     for _ in 0..n {
         let i = rng.below(11);
         let m = rng.range(1, 4);
-        h[i] = Some(Probe { modulus: m, residue: rng.below(m), marker: format!("R_{}", HOOKS[i]) });
+        h[i] = Some(Probe { modulus: m, residue: rng.below(m), marker: format!("R_{}", HOOKS[i]), nullify: i == 9 && rng.below(3) == 0 });
     }
     h
 }
